@@ -77,6 +77,13 @@ def write_funnel(ck, rule):
             vp = {"__call__": "val", "__setitem__": "value", "from_bin": "val"}[name]
             if vp in f.params:
                 good = any(c.args and vp in {n.id for n in ast.walk(c.args[0]) if isinstance(n, ast.Name)} for c in sites)
+                if not good:
+                    # through locals: the substituted first argument of the set_val call on some path derives from the parameter
+                    for pf in fpaths(prog, f):
+                        for ce in pf.calls:
+                            if isinstance(ce.raw.func, ast.Attribute) and ce.raw.func.attr == fun.name and ce.call.args \
+                                    and vp in {n.id for n in ast.walk(ce.call.args[0]) if isinstance(n, ast.Name)}:
+                                good = True
                 ck.check(good, rule, f, "route %s passes its value parameter to set_val" % name, "%s does not store %s" % (name, vp), f.node)
         if name == "__init__":
             # val and raw from kwargs
@@ -248,8 +255,9 @@ def who_writes_codes(ck, rule):
             writers.add(f.qualname)
             if effective_owners(prog, f) == {fun.qualname}:
                 continue   # set_val or a helper extracted from it: decided by the stage-order rule on the inlined paths
-            if isinstance(n, ast.Assign) and isinstance(n.value, ast.Constant) and n.value.value is None and f.name == "__init__":
-                continue
+            if isinstance(n, ast.Assign) and isinstance(n.value, ast.Constant) and n.value.value is None and \
+                    (f.name == "__init__" or effective_owners(prog, f) <= {"objects.Fxp.__init__"}):
+                continue       # None initialiser in the constructor (or in a helper only the constructor calls)
             if kind.startswith("inplace:"):
                 ck.check(kind == "inplace:sort", rule, f, "in-place operation on the code buffer is a pure re-arrangement", "%s" % src(n)[:80], n,
                          "in-place mutation of codes outside the funnel")
